@@ -13,9 +13,10 @@ import sys
 
 pid, k = sys.argv[1], sys.argv[2]
 checks = sys.argv[3:] or [pid]
-wt = f"/tmp/wt_{pid}"
+rnd = int(os.environ.get("SEED_ROUND", "1"))
+wt = f"/tmp/wt_{pid}" if rnd == 1 else f"/tmp/wt{rnd}_{pid}"
 src = f"{wt}/_seed"
-dst = f"/verif/seeded/{pid}-{k}"
+dst = f"/verif/seeded/{pid}-{int(k) + 2 * (rnd - 1)}"
 os.makedirs(dst, exist_ok=True)
 patch = f"{src}/change{k}.diff"
 demo = f"{src}/demo{k}.py"
@@ -35,7 +36,7 @@ def run_demo():
     return r.returncode, (r.stdout + r.stderr)[-600:]
 
 
-meta = {"property": pid, "seed": int(k)}
+meta = {"property": pid, "seed": int(k) + 2 * (rnd - 1), "round": rnd}
 assert sh(f"git -C {wt} diff --quiet -- skactiveml").returncode == 0, \
     "worktree not clean"
 rc0, out0 = run_demo()
@@ -55,7 +56,7 @@ if os.path.exists(notes):
 # now against /repo with my checks
 res = sh(f"SEED_ARGS='{os.environ.get('SEED_ARGS', '')}' "
          f"/verif/tools/try_seed.sh {dst}/patch.diff {' '.join(checks)}")
-meta["ran"] = (f"tools/try_seed.sh seeded/{pid}-{k}/patch.diff "
+meta["ran"] = (f"tools/try_seed.sh {dst[7:]}/patch.diff "
                + " ".join(checks)
                + "  (scratch copy of /repo's skactiveml with the patch "
                  "applied, VERIF_REPO pointed at it, quick tier of each "
